@@ -27,18 +27,96 @@ class PathBudget(Exception):
     pass
 
 
-class _Ctx:
-    def __init__(self, plan, assumptions, timeout_ms):
-        self.plan = plan  # list of [value, flipped]
-        self.pos = 0
-        self.pc = []
+def _arith_only(a):
+    try:
+        return "String" not in a.sexpr() and "Seq" not in a.sexpr() and "Array" not in a.sexpr() and "declare-fun" not in a.sexpr()
+    except Exception:  # noqa: BLE001
+        return False
+
+
+class PathState:
+    """State shared by the successive re-executions of one exploration: the decision plan, the outcome of
+    every branch() call of the current prefix, and ONE incremental solver with a frame per decision, so
+    that a re-execution does no solver work for the prefix it shares with the previous path."""
+
+    def __init__(self, assumptions, timeout_ms, incremental=True):
+        # incremental=False: a fresh solver per path (z3's incremental mode uses weaker cores for
+        # non-linear arithmetic and strings); the decision constraints of the prefix are re-asserted.
+        self.incremental = incremental
+        self.assumptions = list(assumptions)
+        self.plan = []    # [value, flipped, payload, call index, committed constraint, assumes made after it]
+        self.calls = []   # per branch() call of the current prefix: ("T", value) trivial / ("D", value) decision
         self.solver = z3.Solver()
-        self.timeout_ms = timeout_ms
         self.solver.set("timeout", timeout_ms)
         self.solver.add(*assumptions)
+        self.frames = 0
+        self.timeout_ms = timeout_ms
+
+    def truncate(self, n):
+        if not self.incremental:
+            self.solver = z3.Solver()
+            self.solver.set("timeout", self.timeout_ms)
+            self.solver.add(*self.assumptions)
+            self.solver.add(*self.base_assumes)
+            for e in self.plan[:n]:
+                self.solver.add(e[4], *e[5])
+            self.frames = n
+            return
+        while self.frames > n:
+            self.solver.pop()
+            self.frames -= 1
+
+    base_assumes: list = []
+
+    def next_path(self, consumed):
+        """Prepare the plan for the next path (flip the deepest unflipped decision). False when exhausted."""
+        plan = self.plan
+        if consumed is not None:
+            del plan[consumed:]
+        while plan and plan[-1][1]:
+            plan.pop()
+        if not plan:
+            return False
+        plan[-1] = [not plan[-1][0], True, plan[-1][2], plan[-1][3], None, []]
+        return True
+
+
+class _Ctx:
+    def __init__(self, plan_or_state, assumptions=(), timeout_ms=30000):
+        if isinstance(plan_or_state, PathState):
+            st = plan_or_state
+        else:  # legacy call style: a bare plan list -> private state (no sharing between paths)
+            st = PathState(assumptions, timeout_ms)
+            st.plan = plan_or_state
+            for e in st.plan:
+                while len(e) < 6:
+                    e.append(None if len(e) != 5 else [])
+            st.calls = None
+        self.st = st
+        self.plan = st.plan
+        self.solver = st.solver
+        self.timeout_ms = st.timeout_ms
+        self.pos = 0
+        self.pc = []
         self.queries = 0
         self.solver_s = 0.0
         self.trace = []  # free-form event log the harness/stubs may append to
+        self.call_idx = 0
+        if st.calls is not None and st.plan:
+            # everything strictly before the flipped (last) decision is replayed from the record
+            self.replay_calls = st.plan[-1][3]
+            del st.calls[self.replay_calls:]
+            st.truncate(len(st.plan) - 1)
+            self.solver = st.solver
+            self.live = False
+        else:
+            self.replay_calls = 0
+            if st.calls is not None:
+                del st.calls[:]
+                st.base_assumes = []
+                st.truncate(0)
+                self.solver = st.solver
+            self.live = True
 
     def check(self, *extra):
         t = time.time()
@@ -46,14 +124,34 @@ class _Ctx:
             left = DEADLINE - t
             if left <= 0:
                 raise TimeBudget("wall-clock budget of the check exhausted")
-            self.solver.set("timeout", int(min(self.timeout_ms, left * 1000 + 1)))
+            self.solver.set("timeout", int(min(self.timeout_ms, 4000, left * 1000 + 1)))
+        else:
+            self.solver.set("timeout", int(min(self.timeout_ms, 4000)))
         self.solver.push()
         if extra:
             self.solver.add(*extra)
         self.queries += 1
         r = str(self.solver.check())
         model = self.solver.model() if r == "sat" else None
+        assertions = list(self.solver.assertions()) if r == "unknown" else None
         self.solver.pop()
+        if r == "unknown":
+            # z3's non-linear / string heuristics depend on incidental state; retry the same query in
+            # fresh, non-incremental solvers (different seeds / the NIA-specific solver) before giving up
+            for attempt in range(4):
+                s2 = z3.SolverFor("QF_NIA") if attempt == 1 and all(_arith_only(a) for a in assertions) else z3.Solver()
+                s2.set("timeout", int(self.timeout_ms if attempt == 3 else min(self.timeout_ms, 4000)))
+                if attempt:
+                    s2.set("random_seed", attempt * 7919)
+                s2.add(*assertions)
+                self.queries += 1
+                r2 = str(s2.check())
+                if r2 != "unknown":
+                    r = r2
+                    model = s2.model() if r == "sat" else None
+                    break
+                if DEADLINE is not None and time.time() > DEADLINE:
+                    break
         self.solver_s += time.time() - t
         return r, model
 
@@ -63,39 +161,84 @@ class _Ctx:
             raise Unsupported("solver answered unknown on a branch-feasibility query")
         return r == "sat"
 
-    def branch(self, cond, payload=None):
+    def _commit(self, c):
+        self.pc.append(c)
+        self.plan[self.pos - 1][4] = c
+        self.plan[self.pos - 1][5] = []
+        if self.st.incremental:
+            self.solver.push()
+        self.solver.add(c)
+        self.st.frames += 1
+
+    def branch(self, cond, payload=None, known_sat=False):
+        """cond: z3 BoolRef, SBool (possibly lazy) or a thunk returning a BoolRef"""
+        st = self.st
+        ci = self.call_idx
+        self.call_idx += 1
+        if st.calls is not None and ci < self.replay_calls:
+            kind, val = st.calls[ci]
+            if kind == "D":
+                self.pos += 1
+            return val
+        self.live = True
+        if isinstance(cond, SBool):
+            cond = cond.t
+        elif callable(cond):
+            cond = cond()
         cond = z3.simplify(cond)
-        if z3.is_true(cond):
-            return True
-        if z3.is_false(cond):
-            return False
+        if z3.is_true(cond) or z3.is_false(cond):
+            val = z3.is_true(cond)
+            if st.calls is not None:
+                st.calls.append(("T", val))
+            return val
         if self.pos < len(self.plan):
             val = self.plan[self.pos][0]
             c = cond if val else z3.Not(cond)
             if self.pos == len(self.plan) - 1 and self.plan[self.pos][1]:
                 if not self._feasible(c):  # freshly flipped decision
                     raise _Infeasible()
+            self.plan[self.pos][3] = ci
         else:
-            if self._feasible(cond):
+            if known_sat or self._feasible(cond):
                 val = True
             elif self._feasible(z3.Not(cond)):
                 val = False
             else:
                 raise _Infeasible()
-            self.plan.append([val, False, payload])
+            self.plan.append([val, False, payload, ci, None, []])
             c = cond if val else z3.Not(cond)
         self.pos += 1
-        self.pc.append(c)
-        self.solver.add(c)
+        if st.calls is not None:
+            st.calls.append(("D", val))
+        self._commit(c)
         return val
 
     def concretize(self, term, limit=64):
         """Fork over the feasible values of an integer term (list index, range bound, hash ...).
-        The value tried at each plan position is recorded so that re-executions repeat it."""
-        t = z3.simplify(term)
-        if z3.is_int_value(t):
-            return t.as_long()
+        The value tried at each plan position is recorded so that re-executions repeat it; while the
+        shared prefix is replayed no z3 term is built at all."""
+        st = self.st
+        t = None
         for _ in range(limit):
+            ci = self.call_idx
+            if st.calls is not None and ci < self.replay_calls:
+                kind, val = st.calls[ci]
+                if kind == "C":  # the term was a constant on this prefix: no decision was taken
+                    self.call_idx += 1
+                    return val
+                val = self.plan[self.pos][2]
+                if val is None:
+                    raise Unsupported("plan desynchronised at a concretisation point")
+                if self.branch(None):
+                    return val
+                continue
+            if t is None:
+                t = z3.simplify(term.t if isinstance(term, SInt) else term)
+                if z3.is_int_value(t):
+                    self.call_idx += 1
+                    if st.calls is not None:
+                        st.calls.append(("C", t.as_long()))
+                    return t.as_long()
             if self.pos < len(self.plan):
                 val = self.plan[self.pos][2]
                 if val is None:
@@ -107,6 +250,9 @@ class _Ctx:
                         raise Unsupported("solver answered unknown while concretising")
                     raise _Infeasible()
                 val = m.eval(t, model_completion=True).as_long()
+                if self.branch(t == val, payload=val, known_sat=True):
+                    return val
+                continue
             if self.branch(t == val, payload=val):
                 return val
         raise Unsupported(f"more than {limit} feasible values for a concretised integer (unbounded payload reaches an index/range)")
@@ -114,7 +260,12 @@ class _Ctx:
     def assume(self, cond):
         """Constrain the rest of the path (e.g. a guard of a blocking call)."""
         self.pc.append(cond)
-        self.solver.add(cond)
+        if self.live:
+            self.solver.add(cond)  # while replaying the shared prefix the constraint is already in its frame
+            if self.pos > 0 and self.pos <= len(self.plan):
+                self.plan[self.pos - 1][5].append(cond)
+            else:
+                self.st.base_assumes = self.st.base_assumes + [cond]
 
 
 CTX: _Ctx | None = None
@@ -175,32 +326,43 @@ def zbool(x):
 
 
 class SBool:
-    __slots__ = ("t",)
+    """Symbolic boolean.  The z3 term may be given as a thunk: it is only built when the engine
+    actually needs it (never while a re-execution replays the prefix shared with the previous path)."""
 
-    def __init__(self, t):
-        self.t = t
+    __slots__ = ("_t", "_f")
+
+    def __init__(self, t=None, f=None):
+        self._t = t
+        self._f = f
+
+    @property
+    def t(self):
+        if self._t is None:
+            self._t = self._f()
+            self._f = None
+        return self._t
 
     def __bool__(self):
-        return ctx().branch(self.t)
+        return ctx().branch(self)
 
     def __and__(self, o):
-        return SBool(z3.And(self.t, zbool(o)))
+        return SBool(f=lambda: z3.And(self.t, zbool(o)))
 
     __rand__ = __and__
 
     def __or__(self, o):
-        return SBool(z3.Or(self.t, zbool(o)))
+        return SBool(f=lambda: z3.Or(self.t, zbool(o)))
 
     __ror__ = __or__
 
     def __invert__(self):
-        return SBool(z3.Not(self.t))
+        return SBool(f=lambda: z3.Not(self.t))
 
     def __eq__(self, o):
-        return SBool(self.t == zbool(o))
+        return SBool(f=lambda: self.t == zbool(o))
 
     def __ne__(self, o):
-        return SBool(self.t != zbool(o))
+        return SBool(f=lambda: self.t != zbool(o))
 
     def __hash__(self):
         raise Unsupported("hash of symbolic bool")
@@ -224,56 +386,78 @@ def _divmod(a, b):
 
 
 class SInt:
-    __slots__ = ("t",)
+    """Symbolic integer; like SBool the z3 term may be a thunk built on demand."""
 
-    def __init__(self, t):
-        self.t = t if not isinstance(t, int) else z3.IntVal(t)
+    __slots__ = ("_t", "_f", "_c")
 
-    def _num(self, o):
-        return isinstance(o, (int, SInt, SBool)) and not isinstance(o, float)
+    def __init__(self, t=None, f=None):
+        self._t = z3.IntVal(t) if isinstance(t, int) else t
+        self._f = f
+        self._c = None  # (context, concrete value) once concretised on the current path
+
+    @property
+    def t(self):
+        if self._t is None:
+            self._t = self._f()
+            self._f = None
+        return self._t
+
+    def _known(self):
+        """the concrete value if this integer was already concretised on the current path"""
+        c = self._c
+        if c is not None and c[0] is CTX:
+            return c[1]
+        return None
 
     def __add__(self, o):
         if isinstance(o, (float, SReal)):
             return SReal(zreal(self) + zreal(o))
-        return SInt(self.t + zint(o))
+        return SInt(f=lambda: self.t + zint(o))
 
     __radd__ = __add__
 
     def __sub__(self, o):
         if isinstance(o, (float, SReal)):
             return SReal(zreal(self) - zreal(o))
-        return SInt(self.t - zint(o))
+        return SInt(f=lambda: self.t - zint(o))
 
     def __rsub__(self, o):
         if isinstance(o, (float, SReal)):
             return SReal(zreal(o) - zreal(self))
-        return SInt(zint(o) - self.t)
+        return SInt(f=lambda: zint(o) - self.t)
 
     def __mul__(self, o):
         if isinstance(o, (float, SReal)):
             return SReal(zreal(self) * zreal(o))
         if isinstance(o, (tuple, list, str, bytes)):
             return o * self.__index__()
-        return SInt(self.t * zint(o))
+        return SInt(f=lambda: self.t * zint(o))
 
     __rmul__ = __mul__
 
     def __neg__(self):
-        return SInt(-self.t)
+        return SInt(f=lambda: -self.t)
 
     def __pos__(self):
         return self
 
     def __abs__(self):
-        return SInt(z3.If(self.t >= 0, self.t, -self.t))
+        return SInt(f=lambda: z3.If(self.t >= 0, self.t, -self.t))
 
     def __floordiv__(self, o):
+        if isinstance(o, int) and not isinstance(o, bool) and o > 0:
+            return SInt(f=lambda: self.t / o)  # z3's Euclidean div is Python's floor div for positive divisors
         return SInt(_divmod(self.t, zint(o))[0])
 
     def __rfloordiv__(self, o):
         return SInt(_divmod(zint(o), self.t)[0])
 
     def __mod__(self, o):
+        if isinstance(o, int) and not isinstance(o, bool) and o > 0:
+            k = self._known()
+            if k is not None:
+                return k % o
+            return SInt(f=lambda: self.t % o)
         return SInt(_divmod(self.t, zint(o))[1])
 
     def __rmod__(self, o):
@@ -296,8 +480,8 @@ class SInt:
 
     def _cmp(self, o, f):
         if isinstance(o, (float, SReal)):
-            return SBool(f(zreal(self), zreal(o)))
-        return SBool(f(self.t, zint(o)))
+            return SBool(f=lambda: f(zreal(self), zreal(o)))
+        return SBool(f=lambda: f(self.t, zint(o)))
 
     def __lt__(self, o):
         return self._cmp(o, lambda a, b: a < b)
@@ -322,16 +506,21 @@ class SInt:
         return self._cmp(o, lambda a, b: a != b)
 
     def __bool__(self):
-        return ctx().branch(self.t != 0)
+        k = self._known()
+        if k is not None:
+            return k != 0
+        return ctx().branch(SBool(f=lambda: self.t != 0))
 
     def __hash__(self):
         return hash(self.__index__())
 
     def __index__(self):
-        v = z3.simplify(self.t)
-        if z3.is_int_value(v):
-            return v.as_long()
-        return ctx().concretize(self.t)
+        k = self._known()
+        if k is not None:
+            return k
+        v = ctx().concretize(self)
+        self._c = (CTX, v)
+        return v
 
     __int__ = __index__
 
@@ -579,7 +768,7 @@ def _shrink(c, neg, small, model):
     return model
 
 
-def explore(fn, assumptions=(), max_paths=200000, timeout_ms=30000, stop_at_first=True, keep_infos=0, small=()) -> Result:
+def explore(fn, assumptions=(), max_paths=200000, timeout_ms=30000, stop_at_first=True, keep_infos=0, small=(), incremental=False) -> Result:
     """Run `fn()` once per feasible decision vector.
 
     `fn` returns the property of the path: a bool / SBool / z3 BoolRef, or a tuple
@@ -588,9 +777,9 @@ def explore(fn, assumptions=(), max_paths=200000, timeout_ms=30000, stop_at_firs
     """
     global CTX
     res = Result()
-    plan: list = []
+    state = PathState(list(assumptions), timeout_ms, incremental=incremental)
     while True:
-        c = CTX = _Ctx(plan, list(assumptions), timeout_ms)
+        c = CTX = _Ctx(state)
         ok = True
         try:
             out = fn()
@@ -619,31 +808,29 @@ def explore(fn, assumptions=(), max_paths=200000, timeout_ms=30000, stop_at_firs
                 c.queries = 0
                 c.solver_s = 0.0
                 r, model = c.check(z3.Not(term))
-                res.queries += c.queries
-                res.solver_s += c.solver_s
-                if r == "unsat":
-                    res.discharged += 1
-                elif r == "sat":
+                if r == "sat":
+                    # harness-supplied preferences: stages of extra constraints that make the
+                    # counterexample easier to realise concretely (first satisfiable stage wins)
                     if res.cex is None:
-                        # harness-supplied preferences: stages of extra constraints that make the
-                        # counterexample easier to realise concretely (first satisfiable stage wins)
                         for stage in (info or {}).get("prefer", []) if isinstance(info, dict) else []:
                             r2, m2 = c.check(z3.Not(term), *stage)
                             if r2 == "sat":
                                 model = m2
                                 break
                         model = _shrink(c, z3.Not(term), small, model)
+                res.queries += c.queries
+                res.solver_s += c.solver_s
+                if r == "unsat":
+                    res.discharged += 1
+                elif r == "sat":
+                    if res.cex is None:
                         res.cex = (model, info, list(c.pc))
                     if stop_at_first:
                         return res
                 else:
                     res.unknown.append(info)
-            plan = plan[: c.pos]
-        while plan and plan[-1][1]:
-            plan.pop()
-        if not plan:
+        if not state.next_path(c.pos if ok else None):
             return res
-        plan[-1] = [not plan[-1][0], True, plan[-1][2] if len(plan[-1]) > 2 else None]
 
 
 def model_int(model, term):
